@@ -456,7 +456,9 @@ class Interp:
             except (NeedSplit, Infeasible) as exc:
                 raise AnalysisError(f"decorators of {fi.key} could not be followed ({type(exc).__name__})")
             eff = [e for e in scratch.events if not _benign_event(e, scratch)]
-            if eff:
+            if eff and value != ("func", raw):
+                # (a decorator that returns the function itself - a registering one - is transparent for the call; what it
+                #  did at import time is the business of the import-time replay of the registry it filled)
                 raise AnalysisError(f"decorators of {fi.key} have effects at import time ({eff[0]!r}): not modelled")
             if not (isinstance(value, tuple) and value and ((value[0] == "lambda" and isinstance(value[1], (ast.FunctionDef, ast.AsyncFunctionDef))) or value[0] == "func")):
                 raise AnalysisError(f"decorators of {fi.key} do not return a repository function ({T.show(value)[:80]}): not modelled")
@@ -686,14 +688,14 @@ class Interp:
 
     def _may_need_split(self, node: ast.stmt) -> bool:
         """Simple statements that contain a call are executed on a snapshot-backed state (see NeedSplit)."""
-        memo = self.__dict__.setdefault("_split_memo", {})
-        r = memo.get(id(node))
+        r = getattr(node, "_sa_split", None)      # (on the node itself: ids of synthesised statements get reused)
         if r is None:
             if isinstance(node, (ast.For, ast.AsyncFor)):
                 # (a loop over what a call returns: the call may need the split; re-running the whole loop under each case is the same program)
-                r = memo[id(node)] = any(isinstance(n, ast.Call) for n in ast.walk(node.iter))
+                r = any(isinstance(n, ast.Call) for n in ast.walk(node.iter))
+                node._sa_split = r            # type: ignore[attr-defined]
                 return r
-            r = memo[id(node)] = (not isinstance(node, (ast.If, ast.For, ast.While, ast.With, ast.Try, ast.FunctionDef, ast.AsyncFunctionDef, ast.ClassDef, ast.AsyncFor, ast.AsyncWith, ast.Match, ast.Pass, ast.Break, ast.Continue, ast.Global, ast.Nonlocal, ast.Import, ast.ImportFrom))
+            r = node._sa_split = (not isinstance(node, (ast.If, ast.For, ast.While, ast.With, ast.Try, ast.FunctionDef, ast.AsyncFunctionDef, ast.ClassDef, ast.AsyncFor, ast.AsyncWith, ast.Match, ast.Pass, ast.Break, ast.Continue, ast.Global, ast.Nonlocal, ast.Import, ast.ImportFrom))
                                   and any(isinstance(n, (ast.Call, ast.IfExp)) for n in ast.walk(node)))
         return r
 
@@ -1231,10 +1233,12 @@ class Interp:
     # -- control flow
     def st_If(self, node: ast.If, st: State, ctx: Ctx) -> List[Tuple[State, Any]]:
         out: List[Tuple[State, Any]] = []
-        memo = self.__dict__.setdefault("_if_split_memo", {})
-        if id(node) not in memo:
-            memo[id(node)] = any(isinstance(n, ast.BoolOp) for n in ast.walk(node.test)) and any(isinstance(n, ast.Call) for n in ast.walk(node.test))
-        snap = st.fork() if memo[id(node)] else None
+        # (remembered on the node itself: statements synthesised for `match` are short-lived, their ids get reused)
+        flag = getattr(node, "_sa_if_split", None)
+        if flag is None:
+            flag = any(isinstance(n, ast.BoolOp) for n in ast.walk(node.test)) and any(isinstance(n, ast.Call) for n in ast.walk(node.test))
+            node._sa_if_split = flag          # type: ignore[attr-defined]
+        snap = st.fork() if flag else None
         try:
             forks = self.cond_forking(node.test, st, ctx)
         except NeedSplit as ns:
